@@ -347,6 +347,57 @@ def check_case(c, rep):
                 "impl_phase": [p for p in rec["phases"] if p["label"].startswith("impl:")][:1]}, limit=3)
 
 
+def eager_future_case(cid, rng, shape=None):
+    """Methods that return a future without being `async fn` (`fn m(&self) -> impl Future + Send`): the provider does part of its
+    work when it is *called* and the rest when the future is polled. Forwarding means the call reaches the provider when the
+    method is called - not when (or if) the returned future is polled."""
+    shape = shape or rng.choice(["trait", "trait_self", "concrete_fn"])
+    fut = "impl ::core::future::Future<Output = i32> + ::core::marker::Send"
+    L = []
+    if shape == "concrete_fn":
+        # C05's shape: the leaf trait of a concrete-deps fn reaches Impl<T> through a nested invocation on the generated trait
+        L.append("pub struct Prov { pub k: i32 }")
+        L.append("#[::entrait::entrait(pub Tr)] /*@inv*/")
+        L.append("fn mf(deps: &Prov, a: i32) -> %s { ::vrt::enter(\"%s::called\", \"\", 0, &[&a as &dyn ::core::fmt::Debug]); let k = deps.k; async move { ::vrt::enter(\"%s::polled\", \"\", 0, &[]); a + k } }" % (fut, cid, cid))
+    else:
+        L.append("#[::entrait::entrait%s] /*@inv*/" % ("(delegate_by = Self)" if shape == "trait_self" else ""))
+        L.append("pub trait Tr { fn mf(&self, a: i32) -> %s; }" % fut)
+        L.append("pub struct Prov { pub k: i32 }")
+        L.append("impl Tr for Prov { fn mf(&self, a: i32) -> %s { ::vrt::enter(\"%s::called\", \"\", 0, &[&a as &dyn ::core::fmt::Debug]); let k = self.k; async move { ::vrt::enter(\"%s::polled\", \"\", 0, &[]); a + k } } }" % (fut, cid, cid))
+    D = ["pub fn run() {", "    let app = ::entrait::Impl::new(Prov { k: 10 });"]
+    for label, recv in (("direct", "&*app"), ("impl", "&app")):
+        D.append('    ::vrt::phase("%s");' % label)
+        D.append("    { let fut = Tr::mf(%s, 1); ::vrt::enter(\"%s::created\", \"\", 0, &[]); let r = ::vrt::block_on(fut); ::vrt::result(&r); }" % (recv, cid))
+        D.append('    ::vrt::phase("%s:dropped");' % label)
+        D.append("    { let fut = Tr::mf(%s, 2); ::core::mem::drop(fut); ::vrt::enter(\"%s::dropped\", \"\", 0, &[]); }" % (recv, cid))
+    D.append("}")
+    return Case(cid, "\n".join(L + D) + "\n", meta={"family": "eager_future", "shape": shape, "nontrivial": True})
+
+
+def check_eager_future(c, rep):
+    if c.removed is not None:
+        d = (c.removed["diags"] or [{}])[0]
+        rep.violation(c.id, "eager-future:compile:%s" % d.get("code"), "a future-returning (non-async) method does not compile: %s" % d.get("message", "")[:300])
+        return
+    rec = c.runrec.get("bin")
+    if not rec or rec.get("panic") or rec.get("crash"):
+        raise core.Inconclusive("no run record for %s: %s" % (c.id, rec))
+    ph = {p_["label"]: p_ for p_ in rec["phases"]}
+    ev = lambda l: [e["fn"].split("::")[-1] for e in ph[l]["events"]]
+    if ev("direct") != ["called", "created", "polled"] or ev("direct:dropped") != ["called", "dropped"]:
+        raise core.Inconclusive("harness: direct path of %s gives %s / %s" % (c.id, ev("direct"), ev("direct:dropped")))
+    for l in ("impl", "impl:dropped"):
+        if ev(l) != ev(l.replace("impl", "direct")):
+            rep.violation(c.id, "eager-future:order:%s" % "-".join(ev(l)), "through Impl<T> the provider is reached at %s, on T itself at %s (%s): the call is not forwarded when the method is called" % (
+                ev(l), ev(l.replace("impl", "direct")), c.meta["shape"]))
+            return
+    if ph["impl"]["result"] != ph["direct"]["result"]:
+        rep.violation(c.id, "eager-future:result", "results differ: %s vs %s" % (ph["impl"]["result"], ph["direct"]["result"]))
+        return
+    rep.bump("eager_future_cases_ok")
+    rep.count(c.sig(), True)
+
+
 def run(tier, seed):
     rep = core.Report(PROP, tier, seed)
     rep.rule = ("random leaf traits (1-4 &self methods incl. same-signature pairs, generic trait, generic methods, supertraits, where "
@@ -367,13 +418,16 @@ def run(tier, seed):
         cases.append(build_case("c06_%04d" % i, rng, sel))
     st = selftest.case("selftest_c06")
     ws = core.Workspace(PROP, "x", deps=("async-trait",))
-    ws.extend(cases + [st])
+    eager = [eager_future_case("c06e_%03d" % i, rng) for i in range(12 if tier == "quick" else 60)]
+    ws.extend(cases + eager + [st])
     ws.write()
     b = ws.build()
     ws.run(b["exes"])
     selftest.verify(st)
     for c in cases:
         check_case(c, rep)
+    for c in eager:
+        check_eager_future(c, rep)
     rep.bump("fixpoint_rounds", ws.rounds)
     core.floors(rep, calls_compared=n, availability_probes=3 * n)
-    return rep.finish({c.id: c for c in cases})
+    return rep.finish({c.id: c for c in cases + eager})
